@@ -188,10 +188,10 @@ theorem loopD_correct {β : Type} (C : Ctx D) (nm : Nat → String) (hinj : ∀ 
 
 /-! ## one more `Where` -/
 
-theorem execs_cons_ok (C : Ctx D) (st : Stmt) (rest : List Stmt) (s s' : St D) (h : exec C st s = .ok s') :
+theorem deep_execs_cons_ok (C : Ctx D) (st : Stmt) (rest : List Stmt) (s s' : St D) (h : exec C st s = .ok s') :
     execs C (st :: rest) s = execs C rest s' := by simp [execs, h]
 
-theorem exec_ite_of (C : Ctx D) (c : CExpr) (thn els : List Stmt) (s : St D) (v : Val D) (b : Bool)
+theorem deep_exec_ite_of (C : Ctx D) (c : CExpr) (thn els : List Stmt) (s : St D) (v : Val D) (b : Bool)
     (hv : evalE C.N s.env c = .ok v) (hb : asBool C.N v = some b) :
     exec C (.ite c thn els) s = if b then execs C thn s else execs C els s := by
   cases b <;> simp [exec, hv, hb]
@@ -232,8 +232,8 @@ theorem condsD_snoc_correct (C : Ctx D) (nm : Nat → String) (hinj : ∀ i j, n
     simp only []
     have hite : exec C (.ite (.var (nm n)) (fc.decls ++ fc.stmts ++ [.set (nm n) fc.val]) []) { s1 with env := s1.env.set (nm n) wi } =
         .ok { s1 with env := s1.env.set (nm n) wi } := by
-      rw [exec_ite_of C _ _ _ _ wi false hb2 hwi]; simp [execs]
-    rw [execs_cons_ok C _ _ _ _ hset, execs_cons_ok C _ _ _ _ hite]
+      rw [deep_exec_ite_of C _ _ _ _ wi false hb2 hwi]; simp [execs]
+    rw [deep_execs_cons_ok C _ _ _ _ hset, deep_execs_cons_ok C _ _ _ _ hite]
     simp [execs]
   | true =>
     have hcur2 : evalE C.N (s1.env.set (nm n) wi) it = .ok u := by
@@ -248,15 +248,15 @@ theorem condsD_snoc_correct (C : Ctx D) (nm : Nat → String) (hinj : ∀ i j, n
       ⟨wc, by simp [evalE, Env.set], hRc⟩, ?_⟩
     · rw [execs_append, hex1]
       simp only []
-      rw [execs_cons_ok C _ _ _ _ hset]
+      rw [deep_execs_cons_ok C _ _ _ _ hset]
       have hite : exec C (.ite (.var (nm n)) (fc.decls ++ fc.stmts ++ [.set (nm n) fc.val]) []) { s1 with env := s1.env.set (nm n) wi } =
           .ok { s3 with env := s3.env.set (nm n) wc } := by
-        rw [exec_ite_of C _ _ _ _ wi true hb2 hwi]
+        rw [deep_exec_ite_of C _ _ _ _ wi true hb2 hwi]
         simp only [if_true]
         rw [execs_append, hex3]
         simp only []
-        rw [execs_cons_ok C _ _ _ _ hset3]; simp [execs]
-      rw [execs_cons_ok C _ _ _ _ hite]; simp [execs]
+        rw [deep_execs_cons_ok C _ _ _ _ hset3]; simp [execs]
+      rw [deep_execs_cons_ok C _ _ _ _ hite]; simp [execs]
     · intro y hy
       have hne : y ≠ nm n := fun e => hy ⟨n, Nat.le_refl n, by omega, e⟩
       simp only [Env.set, hne, if_false]
